@@ -5,6 +5,8 @@ package main
 
 import (
 	"bufio"
+	"io"
+	"log"
 	"encoding/json"
 	"flag"
 	"fmt"
@@ -95,6 +97,7 @@ func main() {
 		os.Exit(2)
 	}
 	flag.CommandLine = flag.NewFlagSet(os.Args[1], flag.ExitOnError)
+	log.SetOutput(io.Discard) // the library logs malformed origin patterns; thousands of rows would flood stderr
 	if err := fn(os.Args[2:]); err != nil {
 		fmt.Fprintln(os.Stderr, "wsdrive:", err)
 		os.Exit(2)
